@@ -23,8 +23,23 @@ def main():
            "  commandExt.all (fun (c, e) => T.any (fun d => d.name == c && d.extension == some e)) &&",
            "  tagExt.all (fun (c, t, e) => T.any (fun d => d.name == c && d.args.any (fun a => slotBinds a t e)))", "",
            "end Spec"]
-    path = os.path.join(VERIF, "lean", "SieveModel", "Spec", "ExtensionMap.lean")
-    txt = "\n".join(out) + "\n"
+    write_if_changed(os.path.join(VERIF, "lean", "SieveModel", "Spec", "ExtensionMap.lean"), "\n".join(out) + "\n")
+    v = json.load(open(os.path.join(VERIF, "spec", "vocabulary.json")))
+    pairs = [(n, k) for k in ("control", "action", "test") for n in v[k]]
+    out = ["import SieveModel.Model.Table",
+           "/-! FROZEN vocabulary (rendered from /verif/spec/vocabulary.json, hand-written from the RFCs; NOT derived from /repo). -/",
+           "namespace Spec", "",
+           "/-- the commands of the supported language and the role each plays -/",
+           "def vocabulary : List (Bytes × Kind) := [" + ", ".join('(sb "%s", .%s)' % p for p in pairs) + "]", "",
+           "/-- every definition of the table is a word of the vocabulary, in its role -/",
+           "def SpeaksOnly (T : Table) : Bool := T.all (fun d => decide ((d.name, d.kind) ∈ vocabulary))", "",
+           "/-- every word of the vocabulary has a definition -/",
+           "def SpeaksAll (T : Table) : Bool := vocabulary.all (fun (n, k) => T.any (fun d => d.name == n && d.kind == k))", "",
+           "end Spec"]
+    write_if_changed(os.path.join(VERIF, "lean", "SieveModel", "Spec", "Vocabulary.lean"), "\n".join(out) + "\n")
+
+
+def write_if_changed(path, txt):
     try:
         if open(path).read() == txt:
             return
